@@ -21,6 +21,18 @@ func TestMain(m *testing.M) { vp.Main(m) }
 // foldAlphabet is rich in simple-fold orbits with more than two members.
 var foldAlphabet = []rune("kKKsSſσςΣµμΜåÅÅǅǆǄθϑΘϴιͅιΙßẞiİıIaAzZ09-. éÉ世 ")
 
+// casedRunes is every rune below U+20000 that has a non-trivial simple-fold
+// orbit (about 2 800 runes: letters, but also Roman numerals, circled letters,
+// Greek symbols ...), so that no category of cased runes is left out.
+var casedRunes = func() (rs []rune) {
+	for r := rune(0); r < 0x20000; r++ {
+		if unicode.SimpleFold(r) != r && r != utf8.RuneError {
+			rs = append(rs, r)
+		}
+	}
+	return rs
+}()
+
 // enumAlphabet is the sub-alphabet of the exhaustive enumeration.
 var enumAlphabet = []rune("kKKsSſσςaB1İ")
 
@@ -119,7 +131,17 @@ func foldPartner(t *rapid.T, r rune) rune {
 var foldProp = vp.Register(vp.Prop[FoldCase]{
 	Kind: "c13.fold", Base: 150000,
 	Gen: func(t *rapid.T) FoldCase {
-		s := rapid.StringOfN(rapid.RuneFrom(foldAlphabet), 0, 12, -1).Draw(t, "s")
+		alphabet := foldAlphabet
+		if rapid.IntRange(0, 2).Draw(t, "allcased") == 0 {
+			// A small alphabet of arbitrary cased runes plus fillers of
+			// different byte widths.
+			alphabet = []rune{'x', ' ', 'é', '世'}
+			for i := 0; i < 4; i++ {
+				r := rapid.SampledFrom(casedRunes).Draw(t, "cased")
+				alphabet = append(alphabet, r, unicode.SimpleFold(r))
+			}
+		}
+		s := rapid.StringOfN(rapid.RuneFrom(alphabet), 0, 12, -1).Draw(t, "s")
 		var sub string
 		rs := []rune(s)
 		if len(rs) > 0 && rapid.IntRange(0, 2).Draw(t, "derived") != 0 {
@@ -135,7 +157,7 @@ var foldProp = vp.Register(vp.Prop[FoldCase]{
 			}
 			sub = string(w)
 		} else {
-			sub = rapid.StringOfN(rapid.RuneFrom(foldAlphabet), 0, 4, -1).Draw(t, "sub")
+			sub = rapid.StringOfN(rapid.RuneFrom(alphabet), 0, 4, -1).Draw(t, "sub")
 		}
 		return FoldCase{S: s, Sub: sub}
 	},
@@ -147,6 +169,27 @@ var foldProp = vp.Register(vp.Prop[FoldCase]{
 
 // TestFoldEnumerate checks all haystacks of <= 4 (thorough: 5) runes against
 // all needles of <= 2 runes over the 12-rune sub-alphabet.
+// TestFoldAllCased: for every cased rune r and every other member p of its
+// orbit, the needle p+"y" must be found in "x"+r+"y" (and vice versa): a match
+// that does not start at offset 0 and starts with another case of the
+// needle's first rune.
+func TestFoldAllCased(t *testing.T) {
+	n := int64(0)
+	for _, r := range casedRunes {
+		for p := unicode.SimpleFold(r); p != r; p = unicode.SimpleFold(p) {
+			if utf8.RuneLen(p) != utf8.RuneLen(r) {
+				continue // windows have the needle's byte length
+			}
+			n++
+			if !vp.CheckCase(t, "c13.fold", FoldCase{S: "x" + string(r) + "y.", Sub: string(p) + "Y"}, checkFold) {
+				return
+			}
+		}
+	}
+	vp.ClassN("fold:all-cased-runes-sweep", n)
+	vp.Exhaustive("every cased rune below U+20000 x every same-width member of its fold orbit, as first rune of a needle matched off offset 0", true)
+}
+
 func TestFoldEnumerate(t *testing.T) {
 	maxHay := 4
 	if vp.Thorough() {
